@@ -25,7 +25,8 @@ BUDGET = {"quick": 85, "thorough": 900}
 FLOORS = {"reversals": {"quick": 250, "thorough": 2500}, "determinants": {"quick": 120, "thorough": 1200}, "order_fits": {"quick": 25, "thorough": 250},
           "hastings_terms": {"quick": 120, "thorough": 1200}, "nan_region_steps": 8, "retried_then_succeeded": {"quick": 8, "thorough": 40}, "chained_reversals": {"quick": 20, "thorough": 200}, "same_start_after_target_change": {"quick": 20, "thorough": 200}, "adapted_mass_matrices": {"quick": 20, "thorough": 200},
           "low_divergence_threshold_operators": {"quick": 20, "thorough": 200}, "reassigned_small_mass_matrices": {"quick": 20, "thorough": 200},
-          "single_precision_hastings_terms": {"quick": 20, "thorough": 200}, "mixed_precision_reversals": {"quick": 8, "thorough": 80}, "operators_built_with_step_size_search": {"quick": 20, "thorough": 200}, "targets": 6}
+          "single_precision_hastings_terms": {"quick": 20, "thorough": 200}, "mixed_precision_reversals": {"quick": 8, "thorough": 80}, "operators_built_with_step_size_search": {"quick": 20, "thorough": 200}, "targets": 6,
+          "hamiltonian_values": {"quick": 600, "thorough": 6000}, "hmc_class_decisions": {"quick": 200, "thorough": 2000}, "hmc_class_accepted": {"quick": 50, "thorough": 500}}
 
 TARGETS = ["gaussian", "correlated", "gamma-exp", "beta-sigmoid", "hierarchical", "phylo-unrooted", "phylo-time-ratio"]
 IDENT = ["reversal", "reversal", "volume", "order", "hastings", "hastings"]
@@ -46,6 +47,10 @@ def cases(tier, seed):
     # energy of the momenta, to single precision of *that*, not of the Hamiltonian
     for i in range(12 if tier == "quick" else 100):
         out.append({"target": "single-precision", "identity": "hastings32", "seed": int(rng.integers(2**31)), "d": int(rng.integers(1, 6)), "split": 1, "eps": 0.11, "L": int(rng.integers(1, 8)), "mass": "identity"})
+    # the stand-alone sampler (type HMC): its accept/reject decisions, observed from outside, are those of the full Hamiltonian difference
+    for i in range(16 if tier == "quick" else 120):
+        out.append({"target": ["gaussian", "correlated", "gamma-exp", "hierarchical"][i % 4], "identity": "hmc-run", "seed": int(rng.integers(2**31)), "d": int(rng.integers(1, 6)), "split": int(rng.integers(1, 3)),
+                    "eps": float(gm.loguniform(rng, 0.05, 0.5)), "L": int(rng.integers(1, 8)), "mass": str(rng.choice(["diag", "dense", "identity"]))})
     for i in range(24 if tier == "quick" else 120):
         out.append({"target": "nan-region", "identity": "nan", "seed": int(rng.integers(2**31)), "d": 2, "split": 1, "eps": 0.3, "L": 5, "mass": "identity"})
     return out
@@ -145,6 +150,25 @@ def run_case(case):
     else:
         eps = min(eps, 0.1)
     detail = {"case": case, "eps": eps, "L": L}
+    # the Hamiltonian object itself: H(q, p) for momenta handed in one after the other at one position
+    from torchtree.inference.hmc.hamiltonian import Hamiltonian
+
+    ham = Hamiltonian(None, joint)
+    with torch.no_grad():
+        U = -float(joint())
+    Mi_np = Minv.detach().numpy()
+    for k in range(3):
+        pk = rng.normal(0, 1.0 + k, dim)
+        kw = {"mass_matrix": M} if k == 1 else {"inverse_mass_matrix": Minv}
+        with torch.no_grad():
+            got = float(ham(momentum=torch.tensor(pk, dtype=M.dtype), **kw))
+        want = U + 0.5 * float(pk @ (Mi_np * pk if Mi_np.ndim == 1 else Mi_np @ pk))
+        C["hamiltonian_values"] = C.get("hamiltonian_values", 0) + 1
+        if not abs(got - want) <= 1e-8 * max(1.0, abs(want)):
+            V.append(tt.viol("C16:hamiltonian-value:call-%d" % (k + 1), "Hamiltonian(momentum=p%d, %s) returns %.12g at a position with potential energy %.12g and kinetic energy %.12g: %.12g expected" % (k + 1, "/".join(kw), got, U, want - U, want), **detail))
+            break
+    if case["identity"] == "hmc-run":
+        return run_hmc_class(case, rng, dic, joint, params, M, Minv, eps, L, V, C, detail)
 
     def setq(q):
         start = 0
@@ -320,8 +344,25 @@ def run_hastings(case, dic, joint, params, pids, M, eps, L, V, C, detail):
     import contextlib as _cl
     import io as _io
 
+    start_values = [p_.tensor.detach().clone() for p_ in params]
     with _cl.redirect_stdout(_io.StringIO()):
-        op = HMCOperator("hmc", joint, params, integ, mm, disable_adaptation=True, **kw)
+        try:
+            op = HMCOperator("hmc", joint, params, integ, mm, disable_adaptation=True, **kw)
+        except (RuntimeError, ValueError, IndexError):
+            import traceback as _tb
+
+            if not (searched and case["target"].startswith("phylo") and "find_reasonable_step_size" in _tb.format_exc()):
+                raise
+            # the search doubles the step size until the trial trajectories become bad; on a phylogenetic posterior with a bounded support
+            # (root below the origin of a birth-death prior) such a trajectory can leave the support, where the density raises: outside the
+            # quantifier (smooth targets), not judged; the operator is built without the search
+            C["step_size_searches_that_left_the_support"] = C.get("step_size_searches_that_left_the_support", 0) + 1
+            searched = False
+            kw.pop("find_reasonable_step_size")
+            for p_, v_ in zip(params, start_values):
+                p_.tensor = v_
+            integ.step_size = eps
+            op = HMCOperator("hmc", joint, params, integ, mm, disable_adaptation=True, **kw)
     if searched:
         C["operators_built_with_step_size_search"] = C.get("operators_built_with_step_size_search", 0) + 1
         integ.step_size = eps
@@ -437,6 +478,110 @@ def run_hastings(case, dic, joint, params, pids, M, eps, L, V, C, detail):
                 break
     finally:
         integ.__class__.__call__ = orig_call
+
+
+def run_hmc_class(case, rng, dic, joint, params, M, Minv, eps, L, V, C, detail):
+    """The stand-alone sampler torchtree.inference.hmc.hmc.HMC, observed from outside: the momentum it draws, the momentum the
+    integrator hands back, the uniform it draws and the parameters at the end of each iteration.  Each decision must be the one the
+    full Hamiltonian difference H(q0, p0) - H(q1, p1) dictates, with H computed here from the joint at q0 / q1 and numpy kinetic energies."""
+    import contextlib
+    import io
+
+    import numpy.random as npr
+    import torch
+    from torchtree.inference.hmc.hamiltonian import Hamiltonian
+    from torchtree.inference.hmc.hmc import HMC
+    from torchtree.inference.hmc.integrator import LeapfrogIntegrator
+
+    Mi = Minv.detach().numpy()
+    K = lambda p: 0.5 * float(p @ (Mi * p if Mi.ndim == 1 else Mi @ p))
+    rec = {"p0": None, "p1": None, "u": None, "q0": None}
+    rows = []
+
+    def getq():
+        return torch.cat([p.tensor.detach().clone() for p in params], -1).numpy()
+
+    def pot(q):
+        # potential energy at q from a second, independently loaded copy of the target
+        start = 0
+        for p_ in shadow_params:
+            n = p_.tensor.shape[-1]
+            p_.tensor = torch.tensor(q[start:start + n], dtype=p_.tensor.dtype)
+            start += n
+        with torch.no_grad():
+            return -float(shadow_joint())
+
+    spec2, jid2, pids2, _ = build_target(case, np.random.default_rng(case["seed"]))
+    _, dic2 = tt.load(spec2)
+    shadow_joint, shadow_params = dic2[jid2], [dic2[i] for i in pids2]
+
+    class Obs:
+        def initialize(self):
+            pass
+
+        def close(self):
+            pass
+
+        def log(self, sample=None):
+            rows.append(dict(rec, q_end=getq()))
+
+    integ = LeapfrogIntegrator("integ", L, eps)
+    real_sample = Hamiltonian.sample_momentum
+    real_call = LeapfrogIntegrator.__call__
+    real_uniform = npr.uniform
+    state = np.random.RandomState(case["seed"] % (2**31))
+
+    def sample_momentum(self, mass_matrix):
+        rec["q0"] = getq()
+        p = real_sample(self, mass_matrix)
+        rec["p0"] = p.detach().clone().numpy()
+        return p
+
+    def integ_call(self, *a, **k):
+        p = real_call(self, *a, **k)
+        rec["p1"] = p.detach().clone().numpy()
+        rec["q1"] = getq()
+        return p
+
+    def uniform(*a, **k):
+        rec["u"] = float(state.uniform())
+        return rec["u"]
+
+    n_iter = 40
+    hmc = HMC(params, joint, n_iter, integ, mass_matrix=M.clone(), loggers=[Obs()], every=10**9)
+    Hamiltonian.sample_momentum = sample_momentum
+    LeapfrogIntegrator.__call__ = integ_call
+    npr.uniform = uniform
+    np.random.uniform = uniform
+    try:
+        with contextlib.redirect_stdout(io.StringIO()):
+            hmc.run()
+    finally:
+        Hamiltonian.sample_momentum = real_sample
+        LeapfrogIntegrator.__call__ = real_call
+        npr.uniform = real_uniform
+        np.random.uniform = real_uniform
+    acc = 0
+    for i, r in enumerate(rows):
+        h0 = pot(r["q0"]) + K(r["p0"])
+        h1 = pot(r["q1"]) + K(r["p1"])
+        if not (np.isfinite(h0) and np.isfinite(h1)):
+            C["not_judged_nan"] += 1
+            continue
+        alpha = h0 - h1
+        margin = abs(min(0.0, alpha) - np.log(r["u"]))
+        if margin < 1e-7 * max(1.0, abs(h0)):
+            continue  # too close to call in floating point
+        expect = min(0.0, alpha) > np.log(r["u"])
+        moved = not np.array_equal(r["q_end"], r["q0"])
+        stayed_at_proposal = np.array_equal(r["q_end"], r["q1"])
+        C["hmc_class_decisions"] = C.get("hmc_class_decisions", 0) + 1
+        acc += bool(expect)
+        if expect != stayed_at_proposal or (not expect and moved):
+            V.append(tt.viol("C16:hmc-class:decision-not-on-hamiltonian-difference", "iteration %d of the stand-alone HMC sampler: H(q0,p0) - H(q1,p1) = %.6g, log u = %.6g, so the move is %s, but the parameters at the end of the iteration are %s" % (i + 1, alpha, np.log(r["u"]), "accepted" if expect else "rejected", "the proposal" if stayed_at_proposal else ("the start" if not moved else "neither")), accepted_before=acc, **detail))
+            break
+    C["hmc_class_accepted"] = C.get("hmc_class_accepted", 0) + acc
+    return {"violations": V, "counters": C, "fingerprint": None, "fingerprints": [], "sample": None}
 
 
 def run_hastings32(case, rng, V, C):
